@@ -190,6 +190,8 @@ class CtlThread:
         def body():
             c.bind("agent")
             try:
+                if c.ghost.get("park_begin"):
+                    c.sync("begin")         # the new thread's first instruction is a scheduling point of its own
                 self.target(*self.args, **self.kwargs)
             except Aborted:
                 pass
@@ -202,6 +204,8 @@ class CtlThread:
 
         self._t = threading.Thread(target=body, daemon=True)
         self._t.start()
+        if c.ghost.get("park_begin"):
+            c.sync("started")               # ... and so is the parent's return from start(): either thread may run first
 
     def join(self, timeout=None) -> None:  # noqa: ARG002
         c = CTL
